@@ -4,7 +4,7 @@ from ..rules import adapter, dispatch, noise
 META = {
     "title": "Noise-model channels act on the intended atomic levels",
     "technique": "static analysis: literal evaluation of the jump-operator entry tables and square-root rate "
-                 "arguments per noise type; region analysis of the Pulser→emulator basis change",
+                 "arguments per noise type; region analysis of the Pulser→emulator basis change; pairing check of rates and operators; provenance of the noise model per path",
     "design_ref": "DESIGN.md §5 C24, A.9",
     "explanation": "BASIS-rate: each rate enters under math.sqrt with Pulser's divisor (relaxation 1, dephasing 2, "
                    "depolarizing 4, eff_noise: its own rate). BASIS-table: relaxation writes [0,1] (|g><r|), "
